@@ -171,7 +171,7 @@ func runC09(c *rt.Ctx) {
 	}
 	depth := 3
 	if c.Thorough() {
-		depth = 4
+		depth = 5
 	}
 	_ = time.Second
 	for i, cfg := range cfgs {
